@@ -67,7 +67,7 @@ try:
         res["check_violation_lines"] = [l[:300] for l in lines[:8]]
         res["detected"] = rc == 1 and any(l.startswith("VIOLATION") for l in out.splitlines())
         res["concrete_input"] = res["detected"] and not all("no-failing-input-found" in l for l in out.splitlines() if l.startswith("VIOLATION"))
-        sh("git -C /verif checkout -- lean/PynencModel/Gen")
+        sh("/venv/bin/python -m harness.regen", cwd=VERIF, env={"PYTHONPATH": f"{VERIF}:/repo"})
 finally:
     shutil.rmtree(clean, ignore_errors=True)
     shutil.rmtree(mut, ignore_errors=True)
